@@ -9,27 +9,33 @@ import sys
 
 sys.path.insert(0, os.path.dirname(os.path.dirname(os.path.abspath(__file__))))
 from translate import kernels  # noqa: E402
-from props.c07 import gen_and_prove  # noqa: E402
+from props.c07 import gen_and_prove, float_shadow  # noqa: E402
 
 CLAIM = {
-    "text": "The branch residual of both engines, regenerated from the source on every run, is proved equal (field) to the "
-            "documented momentum law: liquids p_from - p_to + lift + [rho g dh - (lambda l/d + zeta) rho v|v|/2]/1e5 for "
-            "either flow direction; gases the integrated real-gas form (P_i^2 - P_{i+1}^2)/2 = C L with compressibility, "
-            "normal state and mean temperature. The friction factor used by the solver equals the documented Nikuradse and "
-            "Swamee-Jain formulas (gas Nikuradse: documented form with 10^0.57 for 3.71), the mean pressure is the "
-            "quadratic mean, reported v / Re / norm factors follow from the reported m, p, T, and the ambient pressure is "
-            "the barometric formula.",
-    "note": "Over R with the standard-library real axioms (sig_forall_dec, sig_not_dec, functional_extensionality_dep; the "
-            "theorems using ln/Rpower also Classical_Prop.classic). Guards: A, D, rho (rho_N), p_i + p_{i+1} non-zero. "
-            "Colebrook: the root finder is an oracle; the monitor checks the implicit equation on the reported lambda "
-            "(|f| <= 2e-2). Fluid property values come from interp1d (oracle). The gas theorem is stated for m >= 0 (the "
-            "reverse direction follows from C09's odd symmetry); exactness of the Jacobian is not claimed.",
-    "technique": "Coq proofs (field/lra) relating kernels regenerated from source to a hand-written spec of the documentation "
-                 "+ monitor recomputing the law on converged nets",
+    "text": "PROVED (17 theorems, all over code regenerated from the source on every run): the branch residual of both engines "
+            "equals the documented momentum law - liquids p_from - p_to + lift + [rho g dh - (lambda l/d + zeta) rho v|v|/2]/1e5 in "
+            "either flow direction (zero-length rows = valves, heat exchangers, pumps as a corollary); gases the integrated "
+            "real-gas form (P_i^2 - P_{i+1}^2)/2 = C L with compressibility, normal state, mean temperature, both directions. "
+            "The friction factor used by the solver equals the documented Nikuradse and Swamee-Jain formulas; the gas Nikuradse "
+            "form is the documented one with 10^0.57 for 3.71 and within 1e-3 of it for 10 <= d/k <= 1e6; the Colebrook function "
+            "given to scipy's newton vanishes exactly at the documented implicit equation, its fprime is the exact derivative "
+            "and a fixed point of the Newton step is a root. Mean pressure = quadratic mean; viscosity / density / c_p are taken "
+            "at the inlet (flow-corrected) and outlet temperatures; reported v, Re, norm factors follow from reported m, p, T "
+            "(both engines); ambient pressure = barometric formula. VALIDATED: translator by a bit-exact PrimFloat shadow. "
+            "MONITORED only: that converged results satisfy the law (hydraulic runs of water / all library gases / three "
+            "friction models / both engines / sections, heights, loss coefficients, valves incl. pipe-attached, heat exchangers; "
+            "bidirectional runs of mixing nets), that newton() finds the Colebrook root, fluid property values (interp1d).",
+    "note": "Over R with the standard-library real axioms (sig_forall_dec, sig_not_dec, functional_extensionality_dep; theorems "
+            "with ln / Rpower / is_derive / interval bounds additionally Classical_Prop.classic and what Coquelicot and "
+            "coq-interval import). Guards: A, D, rho (rho_N), p_i + p_{i+1} non-zero, Re > 1e-8 for the laminar term, lambda > 0 "
+            "and positive log argument for Colebrook - all satisfied by admissible parameters (Examples). Exactness of the "
+            "hydraulic Jacobian is not claimed.",
+    "technique": "Coq proofs (field/lra/auto_derive/interval) relating kernels regenerated from source to a hand-written spec of "
+                 "the documentation + float shadow + monitor recomputing the law on converged nets",
     "design": "DESIGN.md 4/C02 + design_notes/C02.md",
 }
 GEN_FILES = ["KHydIncompNp", "KHydIncompNb", "KHydCompNp", "KHydCompNb", "KPmNp", "KFriction", "KBasicRes", "KGasResNp",
-             "KGasResNb", "KPamb", "KBranchProps"]
+             "KGasResNb", "KPamb", "KBranchProps", "KColebrook", "KLambdaNp"]
 GEN = kernels.gen_entries(GEN_FILES)
 
 
@@ -38,35 +44,9 @@ def run(ctx):
                          "(nikuradse, colebrook, swamee-jain) x engine; one case per net, evaluations per pipe section / "
                          "valve / heat exchanger; non-trivial = converged with at least one flowing section and at least one "
                          "of: height difference, loss coefficient, several sections, reverse flow")
-    proved = gen_and_prove(ctx, GEN, ["Props"], "C02")
+    proved = gen_and_prove(ctx, GEN, ["Props", "PropsExtra"], "C02")
     float_shadow(ctx)
     monitor(ctx, wide=not proved)
-
-
-def float_shadow(ctx):
-    """translator validation: the extracted expression trees over PrimFloat, evaluated in Coq, must reproduce numpy bit for bit"""
-    from harness import kshadow
-    rounds, rows = (1, 18) if ctx.quick else (8, 120)
-    n_tot = n_bad = 0
-    for r in range(rounds):
-        try:
-            text, index = kshadow.shadow_cases(ctx.rng, rows)
-        except Exception as e:
-            ctx.broken("translator", "float shadow generation", repr(e))
-            return
-        trip, out = ctx.coq_counts(text, "shadow_%d" % r)
-        if not trip:
-            ctx.broken("translator", "float shadow does not evaluate", out[-600:])
-            return
-        n, m, first = trip[0]
-        n_tot += n
-        n_bad += m
-        if m:
-            k, o, row, kind = index[first]
-            ctx.broken("translator", "float shadow: Coq evaluation of the translated %s.%s differs from numpy (row kind %s; "
-                                     "%d of %d cases)" % (k, o, kind, m, n), "")
-    ctx.corr("float shadow: translated kernel over PrimFloat (vm_compute) == numpy, bit-exact "
-             "(hyd_incomp_np, hyd_comp_np, derived_np; all outputs)", n_tot, n_bad)
 
 
 def monitor(ctx, wide=False):
